@@ -66,17 +66,11 @@ class Config(CIBaseModel):
 
     @model_validator(mode='after')
     def normalize_search_paths(self):
-        """Resolve search paths and initialize the global configuration
-        singleton."""
+        """Resolve search paths."""
 
-        global _config
         if _config is not None:
             raise RuntimeError('Config has already been initialized.')
-        try:
-            self._normalize_path()
-        finally:
-            _config = self
-
+        self._normalize_path()
         return self
 
     @model_validator(mode='after')
@@ -99,6 +93,18 @@ class Config(CIBaseModel):
                 'weather_data_dir',
                 Path(self.file_location(self.weather.weather_data_dir)).resolve(),
             )
+        return self
+
+    # This validator must stay the last one: the instance only becomes the
+    # global configuration once every other validation step has succeeded, so
+    # that a failed load (e.g. a data file that cannot be found) leaves no
+    # configuration behind.
+    @model_validator(mode='after')
+    def register_singleton(self):
+        """Initialize the global configuration singleton."""
+
+        global _config
+        _config = self
         return self
 
     def file_location(self, f: Path | str) -> Path:
